@@ -642,6 +642,18 @@ func cmdBaseline(args []string) {
 				fmt.Printf("  unclaimed %-8s %s [%s]\n", r.Status, r.Obl.Name, r.Obl.Pos)
 			}
 		}
+		// obligations pinned as unclaimed by hand (/verif/pinned_unclaimed.json): discharged, but too close to the quick
+		// budget to be claimed on every machine
+		var pins map[string]map[string]string
+		if pb, err := os.ReadFile(filepath.Join(verifDir, "pinned_unclaimed.json")); err == nil {
+			json.Unmarshal(pb, &pins)
+		}
+		for name, reason := range pins[id] {
+			if _, already := bl.Unclaimed[name]; !already {
+				bl.Unclaimed[name] = reason
+				n--
+			}
+		}
 		bl.MinObligations = n
 		b, _ := json.MarshalIndent(bl, "", " ")
 		os.MkdirAll(filepath.Join(verifDir, "baseline"), 0o755)
